@@ -186,10 +186,36 @@ def generate_case(rnd, D, k):
             c = rng.calls
             want = numpy.vstack([c[0][3] * numpy.sqrt(parts[0].covariance) + parts[0].means, c[1][3], c[2][3]])
     elif kind == "mixture":
-        parts = [D.Normal(distgen.col([distgen.dy(rnd) for _ in range(d)]), distgen.col([distgen.pos(rnd) for _ in range(d)])) for _ in range(2)]
-        obj = D.Mixture(parts, [0.25, 0.75])
+        weights = rnd.choice([[0.25, 0.75], [0.0, 0.25, 0.75], [0.2, 0.3, 0.5], [0.5, 0.0, 0.5], [0.02, 0.9, 0.08]])
+        repeat = rnd.choice([1, 2, 5, 12])
+        parts = [D.Normal(distgen.col([distgen.dy(rnd, -4, 4) + 16 * i for _ in range(d)]), distgen.col([distgen.pos(rnd) for _ in range(d)])) for i in range(len(weights))]
+        obj = D.Mixture(parts, list(weights))
         s = obj.generate(repeat, rng=rng)
         want = "any"
+        # every returned column is the image, under the component the generator's choice picked, of a standard normal
+        # column the generator produced; the number of columns per component is the number of times it was picked
+        picks = [c for c in rng.calls if c[0] == "choice"]
+        zcols = [numpy.asarray(c[3], dtype=float).reshape(d, -1)[:, j] for c in rng.calls if c[0] == "normal" for j in range(numpy.asarray(c[3]).reshape(d, -1).shape[1])]
+        sa = numpy.asarray(s, dtype=float)
+        if picks and sa.shape == (d, repeat):
+            idx = [int(v) for v in numpy.asarray(picks[0][3]).flatten()]
+            got = [0] * len(weights)
+            unexplained = 0
+            for j in range(repeat):
+                owner = None
+                for ci, pt in enumerate(parts):
+                    mean, sd = numpy.asarray(pt.means, dtype=float).flatten(), numpy.sqrt(numpy.asarray(pt.covariance, dtype=float).flatten())
+                    if any(numpy.allclose(sa[:, j], mean + sd * z, rtol=1e-12, atol=1e-12) for z in zcols):
+                        owner = ci
+                        break
+                if owner is None:
+                    unexplained += 1
+                else:
+                    got[owner] += 1
+            wantc = [idx.count(ci) for ci in range(len(weights))]
+            if unexplained or got != wantc:
+                out.append(("generate-not-pushforward-mixture", f"Mixture(weights {weights}).generate({repeat}): the generator picked components {idx} (counts {wantc}), "
+                            f"the returned columns come from components with counts {got} ({unexplained} columns from no component)"))
         if not any(c[0] in ("choice", "random", "uniform") for c in rng.calls):
             out.append(("rng-ignored-Mixture", "Mixture.generate(rng=...) does not draw the component choice from the generator it is given"))
         if not any(c[0] == "normal" for c in rng.calls):
